@@ -17,6 +17,12 @@ MODELS = {
                               'CHECK_DEADLOCK FALSE\nCONSTANTS OptNames = {"a", "b", "c", "d"}\n', "holds"),
     "SourceIO:phases": ("MC_SourceIO", 'SPECIFICATION IOSpec\nINVARIANT DataOnlyWhenExecuting\nINVARIANT ReadsInBounds\nCHECK_DEADLOCK FALSE\n'
                         'CONSTANTS IOReqs <- MCReqs\nIOShape <- MCShape\n', "holds"),
+    "Naming:cache": ("MC_Naming", 'SPECIFICATION NSpec\nINVARIANT CacheSound\nINVARIANT NTypeOK\nCHECK_DEADLOCK FALSE\n'
+                     'CONSTANTS NNames <- MCNames\nNDescs <- MCDescs\nNCfgs <- MCCfgs\n', "holds"),
+    "RandomRealization:ok": ("RandomRealization", 'SPECIFICATION RSpec\nINVARIANT OneRealization\nCHECK_DEADLOCK FALSE\n'
+                             'CONSTANTS RNodes = {"r1", "r2"}\nRMode = "ok"\n', "holds"),
+    "RandomRealization:redraw-mutant": ("RandomRealization", 'SPECIFICATION RSpec\nINVARIANT OneRealization\nCHECK_DEADLOCK FALSE\n'
+                                        'CONSTANTS RNodes = {"r1", "r2"}\nRMode = "redraw"\n', "violates:OneRealization"),
     "MapBlocksInfo:exact": ("MC_MapBlocksInfo", 'SPECIFICATION MBSpec\nINVARIANT SeenOnGrid\nINVARIANT Exact\nCHECK_DEADLOCK FALSE\n'
                             'CONSTANTS MBLayouts <- MCLayouts\nMBRecs <- MCRecs\n', "holds"),
 }
